@@ -405,3 +405,68 @@ pub fn run(args: &[String]) -> i32 {
     let _ = std::fs::remove_dir_all(&base);
     0
 }
+
+// ------------------------------------------------------------------------------------------
+// RetainManager in front of a store that fails at will (RetainMgr.tla / RetainMgrTrace.tla)
+struct FlakyStore {
+    held: std::sync::Arc<std::sync::Mutex<Option<RetainSnapshot>>>,
+    fail: std::sync::Arc<std::sync::atomic::AtomicBool>,
+}
+impl RetainStore for FlakyStore {
+    fn load(&self) -> Result<RetainSnapshot, trust_runtime::error::RuntimeError> {
+        Ok(self.held.lock().unwrap().clone().unwrap_or_default())
+    }
+    fn store(&self, s: &RetainSnapshot) -> Result<(), trust_runtime::error::RuntimeError> {
+        if self.fail.load(std::sync::atomic::Ordering::SeqCst) {
+            return Err(trust_runtime::error::RuntimeError::RetainStore("zq: backend down".into()));
+        }
+        *self.held.lock().unwrap() = Some(s.clone());
+        Ok(())
+    }
+}
+fn mgr_snap(v: u64) -> RetainSnapshot {
+    let mut s = RetainSnapshot::default();
+    s.insert("v", Value::ULInt(v));
+    s
+}
+fn mgr_id(s: &RetainSnapshot) -> u64 {
+    match s.values().get("v") {
+        Some(Value::ULInt(v)) => *v,
+        _ => 0,
+    }
+}
+/// `retainmgr-run --seed S --runs N --out trace.ndjson`
+pub fn mgr_run(args: &[String]) -> i32 {
+    use trust_runtime::retain::RetainManager;
+    let seed = arg_u64(args, "--seed", 1);
+    let runs = arg_u64(args, "--runs", 300) as usize;
+    let mut o = Out::create(arg(args, "--out").expect("--out"));
+    let mut rng = StdRng::seed_from_u64(seed ^ 0x3e7a);
+    for _ in 0..runs {
+        o.line(&json!({"a": "Reset"}));
+        let held = std::sync::Arc::new(std::sync::Mutex::new(None));
+        let fail = std::sync::Arc::new(std::sync::atomic::AtomicBool::new(false));
+        let mut m = RetainManager::default();
+        let mut now = 0i64;
+        m.configure(Some(Box::new(FlakyStore { held: held.clone(), fail: fail.clone() })), Some(Duration::from_millis(0)), Duration::from_millis(now));
+        for _ in 0..rng.gen_range(3..14) {
+            if rng.gen_bool(0.08) {
+                m.configure(Some(Box::new(FlakyStore { held: held.clone(), fail: fail.clone() })), Some(Duration::from_millis(0)), Duration::from_millis(now));
+                o.line(&json!({"a": "Configure"}));
+                continue;
+            }
+            now += rng.gen_range(0..5);
+            let v = rng.gen_range(1..=3u64);
+            let failing = rng.gen_bool(0.3);
+            fail.store(failing, std::sync::atomic::Ordering::SeqCst);
+            m.mark_dirty();
+            let r = m.save_snapshot(mgr_snap(v), Duration::from_millis(now));
+            fail.store(false, std::sync::atomic::Ordering::SeqCst);
+            let stored = held.lock().unwrap().as_ref().map_or(0, mgr_id);
+            let loaded = m.load().map(|s| mgr_id(&s)).unwrap_or(99);
+            o.line(&json!({"a": "Save", "v": v, "fail": failing, "ok": r.is_ok(), "stored": stored, "loaded": loaded}));
+        }
+    }
+    o.flush();
+    0
+}
